@@ -87,6 +87,9 @@ func genDoc(r *rand.Rand) map[string]any {
 	svcs := map[string]any{}
 	n := 1 + r.Intn(2)
 	names := []string{"web", "db"}
+	if r.Intn(4) == 0 {
+		names[0] = "we.b" // a dotted service name: the walk escapes the dot, cast rows must still apply
+	}
 	for i := 0; i < n; i++ {
 		s := map[string]any{"image": []string{"nginx:1.2", "busybox"}[r.Intn(2)]}
 		k := 2 + r.Intn(7)
@@ -98,7 +101,7 @@ func genDoc(r *rand.Rand) map[string]any {
 			delete(s, "image")
 		}
 		if i == 1 && r.Intn(2) == 0 {
-			s["depends_on"] = m("web", m("condition", "service_started", "restart", true))
+			s["depends_on"] = m(names[0], m("condition", "service_started", "restart", true))
 		}
 		svcs[names[i]] = s
 	}
@@ -346,6 +349,70 @@ type injection struct {
 type escapeArgs struct {
 	Doc  any         `json:"doc"`
 	Injs []injection `json:"injs"`
+	// a secondary file reached through `extends` or `include` ("" = none): SkipInterpolation must hold there too
+	Mode    string      `json:"mode,omitempty"`
+	Sec     any         `json:"sec,omitempty"`
+	SecInjs []injection `json:"sec_injs,omitempty"`
+}
+
+// genSecondary: a self-contained one-service document (no references to top-level resources)
+func genSecondary(r *rand.Rand) map[string]any {
+	s := map[string]any{"image": "busybox"}
+	for j := 2 + r.Intn(5); j > 0; j-- {
+		a := serviceAttrs[r.Intn(len(serviceAttrs))]
+		switch a.key {
+		case "networks", "secrets", "configs", "volumes", "depends_on", "build":
+			continue
+		}
+		s[a.key] = core.DeepCopyVal(a.vals[r.Intn(len(a.vals))])
+	}
+	s["command"] = "echo secondary"
+	s["labels"] = m("from", "secondary file")
+	return m("services", m("base", s))
+}
+
+func inject(d map[string]any, injs []injection, only int) (labels []string) {
+	for i, inj := range injs {
+		if only >= 0 && i != only {
+			continue
+		}
+		ls := leavesOf(d)
+		if inj.Leaf >= len(ls) {
+			continue
+		}
+		lf := ls[inj.Leaf]
+		s, ok := lf.get().(string)
+		if !ok {
+			continue
+		}
+		r := []rune(s)
+		p := inj.Pos % (len(r) + 1)
+		lf.set(string(r[:p]) + inj.Frag + string(r[p:]))
+		labels = append(labels, lf.General)
+	}
+	return labels
+}
+
+// escapeFiles builds the original and the escaped file sets.
+func escapeFiles(a escapeArgs, only int) (orig, esc map[string]string, labels []string) {
+	d := core.DeepCopyVal(core.DecodeVal(a.Doc)).(map[string]any)
+	labels = inject(d, a.Injs, only)
+	orig, esc = map[string]string{}, map[string]string{}
+	if a.Mode != "" && a.Sec != nil {
+		sec := core.DeepCopyVal(core.DecodeVal(a.Sec)).(map[string]any)
+		if only < 0 {
+			inject(sec, a.SecInjs, -1)
+		}
+		switch a.Mode {
+		case "extends":
+			d["services"].(map[string]any)["ext"] = m("extends", m("file", "sec.yaml", "service", "base"))
+		case "include":
+			d["include"] = l("sec.yaml")
+		}
+		orig["sec.yaml"], esc["sec.yaml"] = emitYAML(sec), emitYAML(escapeValues(sec))
+	}
+	orig["compose.yaml"], esc["compose.yaml"] = emitYAML(d), emitYAML(escapeValues(d))
+	return orig, esc, labels
 }
 
 var dollarFrags = []string{"$", "$$", "${X}", "$X", "${X:-d}", "a$b", "${", "$ ", "$1", "${X?err}", "$$$", "}${X", "${X:-${Y}}", "$é", "$_a", "${X}}"}
@@ -370,52 +437,35 @@ func escapeValues(v any) any {
 	return v
 }
 
-func buildEscape(a escapeArgs, only int) (orig, esc string, labels []string) {
-	d := core.DeepCopyVal(core.DecodeVal(a.Doc)).(map[string]any)
-	for i, inj := range a.Injs {
-		if only >= 0 && i != only {
-			continue
-		}
-		ls := leavesOf(d)
-		if inj.Leaf >= len(ls) {
-			continue
-		}
-		lf := ls[inj.Leaf]
-		s, ok := lf.get().(string)
-		if !ok {
-			continue
-		}
-		r := []rune(s)
-		p := inj.Pos % (len(r) + 1)
-		lf.set(string(r[:p]) + inj.Frag + string(r[p:]))
-		labels = append(labels, lf.General)
-	}
-	return emitYAML(d), emitYAML(escapeValues(d)), labels
-}
-
 func realEscape(raw json.RawMessage) any {
 	var a escapeArgs
 	if err := json.Unmarshal(raw, &a); err != nil {
 		return map[string]any{"bad": err.Error()}
 	}
-	orig, esc, _ := buildEscape(a, -1)
-	O, X := loadDoc(orig, nil, true), loadDoc(esc, nil, false)
-	out := map[string]any{"got": X, "want": O, "doc": esc, "kind": "escape", "culprit": "-"}
+	orig, esc, _ := escapeFiles(a, -1)
+	O, X := loadDocs(orig, nil, true), loadDocs(esc, nil, false)
+	out := map[string]any{"got": X, "want": O, "doc": esc["compose.yaml"] + esc["sec.yaml"], "kind": "escape", "culprit": "-"}
 	if parseOutcome(O).isOk() && !sameOutcome(O, X) {
 		out["culprit"] = "combination"
 		for i := range a.Injs {
-			o1, e1, labels := buildEscape(a, i)
-			O1 := loadDoc(o1, nil, true)
-			if len(labels) == 1 && parseOutcome(O1).isOk() && !sameOutcome(O1, loadDoc(e1, nil, false)) {
+			o1, e1, labels := escapeFiles(a, i)
+			O1 := loadDocs(o1, nil, true)
+			if len(labels) == 1 && parseOutcome(O1).isOk() && !sameOutcome(O1, loadDocs(e1, nil, false)) {
 				out["culprit"] = labels[0]
 				break
 			}
 		}
 		if out["culprit"] == "combination" {
-			// no injection needed at all? (the `$`-free document already differs between interpolation on and off)
-			o0, e0, _ := buildEscape(escapeArgs{Doc: a.Doc}, -1)
-			if !sameOutcome(loadDoc(o0, nil, true), loadDoc(e0, nil, false)) {
+			// no injection in the main file needed?
+			o0, e0, _ := escapeFiles(escapeArgs{Doc: a.Doc}, -1)
+			switch {
+			case !sameOutcome(loadDocs(o0, nil, true), loadDocs(e0, nil, false)):
 				out["culprit"] = "no-dollar-at-all"
+			case a.Mode != "":
+				o2, e2, _ := escapeFiles(escapeArgs{Doc: a.Doc, Mode: a.Mode, Sec: a.Sec, SecInjs: a.SecInjs}, -1)
+				if !sameOutcome(loadDocs(o2, nil, true), loadDocs(e2, nil, false)) {
+					out["culprit"] = "secondary-file:" + a.Mode
+				}
 			}
 		}
 	}
@@ -460,7 +510,22 @@ func runC08Meta(ctx *core.Ctx) {
 			}
 			injs = append(injs, injection{Leaf: li, Frag: dollarFrags[ctx.Rng.Intn(len(dollarFrags))], Pos: ctx.Rng.Intn(100)})
 		}
-		ctx.Count("escape-doc")
-		ctx.Add("c08escape", escapeArgs{Doc: core.EncodeVal(doc), Injs: injs})
+		ea := escapeArgs{Doc: core.EncodeVal(doc), Injs: injs}
+		if i%3 != 0 {
+			ea.Mode = []string{"extends", "include"}[i%2]
+			sec := genSecondary(ctx.Rng)
+			sl := leavesOf(sec)
+			for j := 1 + ctx.Rng.Intn(3); j > 0; j-- {
+				li := ctx.Rng.Intn(len(sl))
+				if _, ok := sl[li].get().(string); ok {
+					ea.SecInjs = append(ea.SecInjs, injection{Leaf: li, Frag: dollarFrags[ctx.Rng.Intn(len(dollarFrags))], Pos: ctx.Rng.Intn(100)})
+				}
+			}
+			ea.Sec = core.EncodeVal(sec)
+			ctx.Count("escape-doc:" + ea.Mode)
+		} else {
+			ctx.Count("escape-doc")
+		}
+		ctx.Add("c08escape", ea)
 	}
 }
